@@ -5,5 +5,10 @@ func moreGens() []struct {
 	name string
 	fn   func() string
 } {
-	return nil
+	return []struct {
+		name string
+		fn   func() string
+	}{
+		{"EdiConsts.v", genEdiConsts}, // C07
+	}
 }
